@@ -32,7 +32,7 @@ func nCases(tier string) int {
 	if tier == "thorough" {
 		return probeN + 20000
 	}
-	return probeN + 1100
+	return probeN + 800
 }
 
 func gen(r *rand.Rand, i int, tier string) Case {
@@ -238,8 +238,14 @@ func rdStream(scope *slip.Scope, r io.Reader) (o outcome) {
 		o.vals, o.approx = render(code)
 		o.pos = pos
 	})
+	if o.err != nil && o.err.Internal && internalHook != nil {
+		internalHook(o)
+	}
 	return
 }
+
+// internalHook reports a Go runtime fault inside the stream reader; it is set per case.
+var internalHook func(o outcome)
 
 func rdStreamOne(scope *slip.Scope, r io.Reader) (o outcome) {
 	o.err = sl.Catch(func() {
@@ -251,15 +257,24 @@ func rdStreamOne(scope *slip.Scope, r io.Reader) (o outcome) {
 }
 
 func rdPush(scope *slip.Scope, r io.Reader, max int) (o outcome) {
-	ch := make(chan slip.Object, max+8)
-	o.err = sl.Catch(func() {
-		slip.ReadStreamPush(r, scope, ch)
-	})
-	close(ch)
+	// the channel is drained while the reader runs, so a reader that pushes more
+	// objects than the text holds cannot block the worker
+	ch := make(chan slip.Object, 64)
+	done := make(chan *sl.Err, 1)
+	go func() {
+		err := sl.Catch(func() {
+			slip.ReadStreamPush(r, scope, ch)
+		})
+		close(ch)
+		done <- err
+	}()
 	var code []slip.Object
 	for obj := range ch {
-		code = append(code, obj)
+		if len(code) < 4*max+64 {
+			code = append(code, obj)
+		}
 	}
+	o.err = <-done
 	if o.err == nil {
 		o.vals, o.approx = render(code)
 	}
@@ -453,6 +468,10 @@ func exec(x *fw.Ctx, c Case) {
 	if n < 3 {
 		x.Trivial()
 	}
+	internalHook = func(o outcome) {
+		m.fail("internal-fault reader=stream", "%q: a stream delivery ends in a Go runtime fault: %s", T, o.err)
+	}
+	defer func() { internalHook = nil }()
 	base := rdString(m.scope, T)
 	obs := map[string]any{"text": T, "base": c.Base, "float-format": c.FF, "read-string": short(base.String())}
 	x.Observe(obs)
@@ -477,6 +496,12 @@ func exec(x *fw.Ctx, c Case) {
 	}
 
 	// monitor 2: delivery independence
+	if c.Dirty == "bcom-bar-bar-hash" {
+		// the comment really ends somewhere else than the harness's segments say:
+		// cut states cannot be named for this text
+		x.Cover("deliveries-skipped:segments-unreliable")
+		return
+	}
 	single := m.deliveries(base, states)
 	if clean && agrees {
 		m.clFuncs(base)
@@ -680,6 +705,7 @@ func (m *runner) deliveries(base outcome, states []cutInfo) []bool {
 	n := len(T)
 	rng := rand.New(rand.NewPCG(fw.Hash64([]byte(T)), 0xC02))
 	single := make([]bool, n+1)
+	singleM := [2][]bool{make([]bool, n+1), make([]bool, n+1)}
 
 	// whole text in one piece, both EOF conventions, and with empty reads
 	atEnd := "after-" + endKind(&c.Segs[len(c.Segs)-1])
@@ -711,20 +737,20 @@ func (m *runner) deliveries(base outcome, states []cutInfo) []bool {
 				continue
 			}
 			single[k] = true
+			singleM[mode][k] = true
 			m.fail("delivery=stream cut="+st, "%q delivered as %q + %q (%s): ReadString %s, ReadStream %s",
 				T, T[:k], T[k:], modeName(mode), base, o)
-			break
 		}
 		if judged && !single[k] {
 			x.Cover("cut-agrees:" + st)
 		}
 	}
-	explained := func(cuts []int) bool {
-		if m.whole[0] || m.whole[1] {
+	explained := func(cuts []int, mode int) bool {
+		if m.whole[mode&mEOFLast] {
 			return true
 		}
 		for _, k := range cuts {
-			if single[k] {
+			if singleM[mode&mEOFLast][k] {
 				return true
 			}
 		}
@@ -736,7 +762,7 @@ func (m *runner) deliveries(base outcome, states []cutInfo) []bool {
 		switch {
 		case same(base, o):
 			x.Cover(what + ":agrees")
-		case explained(cuts):
+		case explained(cuts, mode):
 			x.Cover(what + ":differs-explained-by-a-failing-single-cut")
 		default:
 			m.fail("delivery=stream cuts=several", "%q cut at %v (every one of these cuts alone is read correctly): ReadString %s, ReadStream %s", T, cuts, base, o)
@@ -782,6 +808,36 @@ func (m *runner) deliveries(base outcome, states []cutInfo) []bool {
 		}
 		multi(cuts, mode, "multi-cut")
 	}
+	// every pair of cuts of a short text (bounded exhaustive)
+	if pairLimit := map[string]int{"quick": 24, "thorough": 48}[x.Tier]; n <= pairLimit {
+		for a := 1; a < n; a++ {
+			for b := a + 1; b < n; b++ {
+				multi([]int{a, b}, (a+b)&1, "cut-pair")
+			}
+		}
+		x.Cover("cut-pairs-exhaustive")
+	}
+	// the same pieces through slip's RuneReader wrapper (slip.InputStream) must read the same
+	for j := 0; j < 12 && 2 < n; j++ {
+		cnt := 1 + rng.IntN(4)
+		set := map[int]bool{}
+		for len(set) < cnt && len(set) < n-1 {
+			set[1+rng.IntN(n-1)] = true
+		}
+		cuts := make([]int, 0, len(set))
+		for k := range set {
+			cuts = append(cuts, k)
+		}
+		sort.Ints(cuts)
+		plain := rdStream(m.scope, newPieces(T, cuts, j&1))
+		wrapped := rdStream(m.scope, slip.NewInputStream(newPieces(T, cuts, j&1)))
+		m.nread += 2
+		if !same(plain, wrapped) {
+			m.fail("delivery=stream via=rune-reader differs-from=plain", "%q cut at %v: plain reader %s, through slip.InputStream %s", T, cuts, plain, wrapped)
+		} else {
+			x.Cover("rune-reader:agrees-with-plain")
+		}
+	}
 	// push / each / one-form stream reading must agree with ReadStream on the same pieces
 	var sets [][]int
 	sets = append(sets, nil)
@@ -812,7 +868,7 @@ func (m *runner) deliveries(base outcome, states []cutInfo) []bool {
 			x.Cover("each:agrees-with-stream")
 		}
 		// one form from a stream: same object and position as ReadOne
-		if base.err == nil && 0 < len(base.vals) && !explained(cuts) {
+		if base.err == nil && 0 < len(base.vals) && !explained(cuts, mode) {
 			one := rdOne(m.scope, T)
 			so := rdStreamOne(m.scope, newPieces(T, cuts, mode))
 			m.nread += 2
@@ -844,7 +900,7 @@ func (m *runner) deliveries(base outcome, states []cutInfo) []bool {
 		switch {
 		case same(ref, o):
 			x.Cover("natural-block:agrees")
-		case single[k] || m.whole[0]:
+		case singleM[0][k] || m.whole[0]:
 			x.Cover("natural-block:differs-explained-by-a-failing-single-cut")
 		default:
 			m.fail("delivery=natural-block cut="+st, "%d bytes of padding + %q, block boundary before %q: ReadString gives %d objects ending %s, ReadStream %d objects ending %s",
@@ -980,8 +1036,9 @@ func init() {
 			"; and #| |# comments, @time tokens), <= 120 bytes (4% long texts <= 420), with its lexical segments, form ends and expected objects; " +
 			"the first 420 cases are the same for every seed. Per case: ReadString vs expectation; ReadOne and read-from-string object+position per form; " +
 			"cl:read (seekable and byte-wise stream); ReadStream for EVERY single cut position under both EOF conventions, every fixed chunk size, " +
-			"200 random multi-cuts, empty reads, push/each/one-form variants, padding to the natural 64 KiB block boundary; every proper prefix (truncation). " +
-			"About 12% of cases hold exactly one construct of the avoid set (dirty stream). Distinct = distinct case JSON; non-trivial = text of >= 3 bytes",
+			"every pair of cuts of short texts, 200 random multi-cuts, empty reads, slip.InputStream wrapper, push/each/one-form variants, padding to the natural 64 KiB block boundary; every proper prefix (truncation). " +
+			"About 12% of cases hold exactly one construct of the avoid set (dirty stream: quote-like prefix before a non-symbol atom, (a . nil), #* at end of text, " +
+			".5 floats, ||# comment end, 10. under a non-decimal base); the clean stream avoids them and the constructs slip rejects loudly in every delivery (see meta note). Distinct = distinct case JSON; non-trivial = text of >= 3 bytes",
 		N:     nCases,
 		Gen:   gen,
 		Exec:  exec,
